@@ -79,4 +79,17 @@ theorem C08_src_fromCan_toCan (f : Frame) (h : f.CanCanonical) :
   | err e => rw [hc] at this; exact this
   | panic => rw [hc] at this; exact this
 
+/-- **C08's encode side about the encoder as it reads now**: `Src.toCan` is `Frame::to_bxcan_frame` translated statement by
+statement from `src/frame.rs` on every run (the identifier accumulated with `id |= …`, the `match` on the kind of the frame
+id, the construction of the `bxcan` frame with its two `unwrap`s and its slice). For every well-formed frame it returns
+exactly the published layout: extended identifier `layoutId f`, data frame, `dlc` = data length, the first `dlc` data bytes. -/
+theorem C08_src_toCan_layout (f : Frame) (h : f.WF) :
+    Src.toCan f = .ok { ext := true, id := layoutId f, rtr := false, dlc := f.dataLen, data := f.data.take f.dataLen } := by
+  rw [Ross.src_toCan_eq]; exact Ross.toCan_layout f h
+
+/-- the round trip through both translated sides: `Src.fromCan` inverts `Src.toCan` on every frame in canonical form -/
+theorem C08_src_roundtrip (f : Frame) (h : f.CanCanonical) :
+    (match Src.toCan f with | .ok c => Src.fromCan c | .err e => .err e | .panic => .panic) = .ok f := by
+  rw [Ross.src_toCan_eq]; exact C08_src_fromCan_toCan f h
+
 end Ross.Props
